@@ -1,0 +1,36 @@
+//go:build verif
+
+// Machine-checked contracts for this package (comment-only; compiled only with -tags verif,
+// and even then contributes no code).  Read by /verif/govc; see /verif/DESIGN.md.
+
+package calico
+
+//@ func clusterRoutePolicyFromBGPConfig
+//@   property C28
+//@   ensures res.ipip == birdIPIP(bgpPCRValue(cfg), bgpPCRSet(cfg))
+//@   ensures res.noEncap == birdNoEncap(bgpPCRValue(cfg), bgpPCRSet(cfg))
+//@   assigns nothing
+
+//@ spec macro bgpPCRSet(cfg *v3.BGPConfiguration) bool = cfg != nil && cfg.Spec.ProgramClusterRoutes != nil
+//@ spec macro bgpPCRValue(cfg *v3.BGPConfiguration) string = bgpPCRSet(cfg) ? *cfg.Spec.ProgramClusterRoutes : ""
+
+//@ func poolUsesIPIP
+//@   property C28
+//@   requires ippool != nil
+//@   ensures res == (ippool.IPIPMode == encap.Always || ippool.IPIPMode == encap.CrossSubnet)
+//@   assigns nothing
+
+//@ func poolUsesVXLAN
+//@   property C28
+//@   requires ippool != nil
+//@   ensures res == (ippool.VXLANMode == encap.Always || ippool.VXLANMode == encap.CrossSubnet)
+//@   assigns nothing
+
+//@ -- BIRD programs a pool iff it is not a VXLAN pool and the policy covers its class
+//@ func (clusterRoutePolicy).programsPool
+//@   property C28
+//@   requires ippool != nil
+//@   ensures res == birdProgramsPool(p.ipip, p.noEncap,
+//@             ippool.VXLANMode == encap.Always || ippool.VXLANMode == encap.CrossSubnet,
+//@             ippool.IPIPMode == encap.Always || ippool.IPIPMode == encap.CrossSubnet)
+//@   assigns nothing
